@@ -348,6 +348,29 @@ func genHistory(g *hx.Gen, n int) []hOp {
 	var open []int64
 	rid := int64(0)
 	for i := 0; i < n; i++ {
+		if len(live) > 0 && g.Chance(0.12) {
+			// a route changes hands while a request to it is in flight; afterwards the same request again
+			t := live[g.Intn(len(live))]
+			h := t.d
+			if strings.HasPrefix(h, "*.") {
+				h = "w" + h[1:]
+			} else if h == "*" {
+				h = "any.org"
+			}
+			p := t.l + "/z"
+			if g.Chance(0.3) {
+				h = strings.ToUpper(h) + ":80"
+			}
+			r1, r2 := rid+1, rid+2
+			rid += 2
+			ops = append(ops, hOp{kind: "begin", rid: r1, host: h, path: p, user: t.u},
+				hOp{kind: "unreg", d: t.d, l: t.l, u: t.u},
+				hOp{kind: "reg", d: t.d, l: t.l, u: t.u, owner: int64(1 + g.Intn(nOwners))},
+				hOp{kind: "end", rid: r1},
+				hOp{kind: "begin", rid: r2, host: h, path: p, user: t.u},
+				hOp{kind: "end", rid: r2})
+			continue
+		}
 		switch x := g.Intn(100); {
 		case x < 22:
 			t := triple{g.Pick(hDomains), g.Pick(hLocs), g.Pick(hUsers)}
